@@ -15,6 +15,7 @@ CONSTANTS
   GuardInactive = TRUE
   GuardHealth = TRUE
   OwnDelete = TRUE
+  CacheMiss = FALSE
 VIEW view
 CHECK_DEADLOCK FALSE
 PROPERTIES InactiveNeverCreates Owned Order HealthTruth HandOverSafe
